@@ -63,21 +63,25 @@ def main():
     if not meta.get('confirmed'):
         print('NOT CONFIRMED', json.dumps(meta, indent=1))
         return 1
-    # run our checks against it
-    rc, out = sh('git -C /repo status --porcelain --untracked-files=no')
-    assert out.strip() == '', '/repo is dirty: ' + out
-    rc, out = sh('git -C /repo apply %s' % os.path.abspath(diff))
+    # run our checks against it: in a scratch worktree through VF_REPO, so that /repo itself stays untouched (long background runs use it)
+    evaldir = '/tmp/seedeval_%s' % sid
+    sh('git -C /repo worktree remove --force %s' % evaldir)
+    rc, out = sh('git -C /repo worktree add -q %s HEAD' % evaldir)
+    assert rc == 0, out
+    rc, out = sh('git apply %s' % os.path.abspath(diff), cwd=evaldir)
     assert rc == 0, out
     results = {}
     try:
+        env = dict(os.environ, VF_REPO=evaldir)
         for c in checks:
             t0 = time.time()
-            rc, out = sh('./check %s %s' % (c, tier), cwd=VERIF, timeout=7200)
+            rc, out = sh('./check %s %s' % (c, tier), cwd=VERIF, timeout=7200, env=env)
             viol = [l for l in out.splitlines() if l.startswith('VIOLATION')]
             results[c] = {'exit': rc, 'violations': len(viol), 'first': (viol[0] if viol else None), 'summary': out.strip().splitlines()[-1][:200], 'wall_s': round(time.time() - t0)}
-            meta['ran'].append('./check %s %s with the change applied to /repo -> exit %d, %d VIOLATION lines' % (c, tier, rc, len(viol)))
+            meta['ran'].append('./check %s %s against a scratch worktree with the change applied (VF_REPO) -> exit %d, %d VIOLATION lines' % (c, tier, rc, len(viol)))
     finally:
-        sh('git -C /repo checkout -- .')
+        sh('git -C /repo worktree remove --force %s' % evaldir)
+        shutil.rmtree(evaldir, ignore_errors=True)
     meta['checks'] = results
     meta['caught_by'] = [c for c, r in results.items() if r['exit'] == 1]
     meta['needs'] = open(note).read().strip()
